@@ -26,10 +26,19 @@ const (
 	RedirSame  Step = "302-same-host"
 	RedirOther Step = "302-other-host" // to the other listener
 	Error500   Step = "500"
+	// further redirects (outside the seven-letter alphabet that is enumerated exhaustively)
+	Redir307Same  Step = "307-same-host" // method and body are kept
+	Redir307Other Step = "307-other-host"
+	Redir308Same  Step = "308-same-host"
+	Redir303Same  Step = "303-same-host"
+	Redir301Other Step = "301-other-host"
 )
 
-// Alphabet lists every step.
+// Alphabet lists the seven basic steps.
 var Alphabet = []Step{OK, Challenge, Reject, Basic, RedirSame, RedirOther, Error500}
+
+// MoreRedirects lists the redirect steps beyond 302.
+var MoreRedirects = []Step{Redir307Same, Redir307Other, Redir308Same, Redir303Same, Redir301Other}
 
 // RejectToken is the WWW-Authenticate value of a rejected negotiation: NegTokenResp { negState reject }.
 const RejectToken = "Negotiate oQcwBaADCgEC"
@@ -38,13 +47,36 @@ const RejectToken = "Negotiate oQcwBaADCgEC"
 func (s Step) Final() bool { return s == OK || s == Reject || s == Basic || s == Error500 }
 
 // Redirect reports whether a step is a redirect.
-func (s Step) Redirect() bool { return s == RedirSame || s == RedirOther }
+func (s Step) Redirect() bool { return s.redirectStatus() != 0 }
 
-// Script is a prefix followed by a constant tail; from request Bound+1 on the server answers 200,
-// so that a client with no bound on its own retries still terminates.
+// KeepsMethod reports whether a step is a redirect that obliges the client to repeat method and body (307, 308).
+func (s Step) KeepsMethod() bool { return s == Redir307Same || s == Redir307Other || s == Redir308Same }
+
+func (s Step) redirectStatus() int {
+	switch s {
+	case RedirSame, RedirOther:
+		return 302
+	case Redir307Same, Redir307Other:
+		return 307
+	case Redir308Same:
+		return 308
+	case Redir303Same:
+		return 303
+	case Redir301Other:
+		return 301
+	}
+	return 0
+}
+
+func (s Step) otherHost() bool { return s == RedirOther || s == Redir307Other || s == Redir301Other }
+
+// Script is a prefix followed by a constant tail (or, when Cycle is set, by that cycle of steps repeated
+// for ever); from request Bound+1 on the server answers 200, so that a client with no bound on its own
+// retries still terminates.
 type Script struct {
 	Prefix []Step
 	Tail   Step
+	Cycle  []Step
 	Bound  int
 }
 
@@ -55,6 +87,9 @@ func (s Script) At(seq int) (Step, bool) {
 	}
 	if seq <= len(s.Prefix) {
 		return s.Prefix[seq-1], false
+	}
+	if len(s.Cycle) > 0 {
+		return s.Cycle[(seq-len(s.Prefix)-1)%len(s.Cycle)], false
 	}
 	return s.Tail, false
 }
@@ -192,10 +227,10 @@ func (s *Server) handle(idx int, w http.ResponseWriter, r *http.Request) {
 	case Basic:
 		rec.Status = 401
 		h.Set("WWW-Authenticate", "Basic realm=x")
-	case RedirSame, RedirOther:
-		rec.Status = 302
+	case RedirSame, RedirOther, Redir307Same, Redir307Other, Redir308Same, Redir303Same, Redir301Other:
+		rec.Status = step.redirectStatus()
 		target := idx
-		if step == RedirOther && len(s.hosts) > 1 {
+		if step.otherHost() && len(s.hosts) > 1 {
 			target = (idx + 1) % len(s.hosts)
 		}
 		rec.Location = "http://" + s.hosts[target].urlHost + "/hop" + strconv.Itoa(rec.Seq)
